@@ -483,6 +483,30 @@ func vC12Late(zl, empty, ql int) vC12Topo {
 		}}
 }
 
+// many zones z<i>. behind ONE authority address: the root refers each to ns.z<i>. with the same glue
+func vC12Shared() vC12Topo {
+	return vC12Topo{fam: 9, name: "shared-authority", servers: 2, qname: "www.z0.",
+		answer: func(srv int, q dns.Question, tcp bool) *dns.Msg {
+			lower := strings.ToLower(q.Name)
+			idx := strings.LastIndex(strings.TrimSuffix(lower, "."), ".")
+			apex := lower[idx+1:]
+			var i int
+			if _, err := fmt.Sscanf(apex, "z%d.", &i); err != nil {
+				return vC12Neg(".", dns.RcodeNameError)
+			}
+			if srv == 0 {
+				return vC12Referral(apex, 1)
+			}
+			if lower == "www."+apex && q.Qtype == dns.TypeA {
+				return vC12Auth(vC12A(q.Name, net.IPv4(203, 0, 113, 15)))
+			}
+			if lower == apex {
+				return vC12Neg(apex, dns.RcodeSuccess)
+			}
+			return vC12Neg(apex, dns.RcodeNameError)
+		}}
+}
+
 // finite: the topology resolves (or fails) in bounded work even with the firewall off, quickly
 func vC12RandTopo(r *rand.Rand, finite bool) vC12Topo {
 	switch r.Intn(10) {
@@ -627,7 +651,11 @@ type vC12Reply struct {
 	written        bool
 }
 
-func (rig *vC12Rig) query(qname string, edns bool) vC12Reply {
+func (rig *vC12Rig) query(qname string, edns bool) vC12Reply { return rig.queryWith(qname, edns, nil) }
+
+// queryWith lets one client bring its own request-tree ledger (the first ledger of a tree wins), so
+// clients with different remaining budgets can follow each other on one resolver
+func (rig *vC12Rig) queryWith(qname string, edns bool, own *middleware.RecursionWorkLedger) vC12Reply {
 	req := new(dns.Msg)
 	req.SetQuestion(qname, dns.TypeA)
 	if edns {
@@ -639,7 +667,11 @@ func (rig *vC12Rig) query(qname string, edns bool) vC12Reply {
 	ch := rig.pipe.NewChain()
 	ch.Reset(w, req)
 	t0 := time.Now()
-	ch.Next(context.Background())
+	ctx := context.Background()
+	if own != nil {
+		ctx = middleware.WithRecursionWork(ctx, own)
+	}
+	ch.Next(ctx)
 	el := time.Since(t0)
 	rig.pipe.PutChain(ch)
 	// stragglers of the two-server race have been sent before the winner was read; give the
@@ -717,6 +749,56 @@ func TestVerifC12Lab(t *testing.T) {
 		n = 40
 	}
 	r := rand.New(rand.NewSource(int64(seed)*15485863 + 12))
+	// crowds: k clients whose budget runs out right when the shared authority is addressed, then an
+	// independent client with an ample budget; it must be served exactly as on a resolver the crowd never used
+	crowds := 3
+	if os.Getenv("VERIF_TIER") == "thorough" {
+		crowds = 30
+	}
+	for c := 0; c < crowds; c++ {
+		topo := vC12Shared()
+		k := 5 + r.Intn(5)
+		if c == 0 {
+			k = 6
+		}
+		tiny := uint32(1 + r.Intn(2))
+		if c == 0 {
+			tiny = 1
+		}
+		qmin := r.Intn(2) == 0
+		reask := r.Intn(2) == 0
+		pol := func(out uint32) middleware.RecursionWorkPolicy {
+			return middleware.MustRecursionWorkPolicyFromConfig(config.RecursionFirewallConfig{Mode: config.RecursionFirewallModeEnforce, MaxOutboundQueries: out})
+		}
+		final := fmt.Sprintf("www.z%d.", k+1)
+		if reask {
+			final = "www.z1."
+		}
+		rigA, errA := vC12NewRig(topo, 2, 128, 32, qmin)
+		rigB, errB := vC12NewRig(topo, 2, 128, 32, qmin)
+		if errA != nil || errB != nil {
+			emit(map[string]any{"k": "lab-crowd", "inconclusive": true, "desc": "bind"})
+			continue
+		}
+		over := 0
+		for i := 1; i <= k; i++ {
+			x := rigA.queryWith(fmt.Sprintf("www.z%d.", i), true, middleware.NewRecursionWorkLedger(pol(tiny)))
+			if x.first != 0 {
+				over++
+			}
+		}
+		after := rigA.queryWith(final, true, middleware.NewRecursionWorkLedger(pol(128)))
+		fresh := rigB.queryWith(final, true, middleware.NewRecursionWorkLedger(pol(128)))
+		rigA.net.stop()
+		rigB.net.stop()
+		emit(map[string]any{
+			"k":          "lab-crowd",
+			"coq":        fmt.Sprintf("CaseCrowd %d %d %d %s %s", k, tiny, over, vC12List(after.canon), vC12List(fresh.canon)),
+			"nontrivial": over >= 5,
+			"desc": map[string]any{"topology": topo.name, "crowd": k, "crowd_outbound_budget": tiny, "crowd_over_budget": over, "final_qname": final, "qmin": qmin,
+				"after_crowd": fmt.Sprintf("%+v", after), "fresh_resolver": fmt.Sprintf("%+v", fresh)},
+		})
+	}
 	// boundary topologies first, in every run: each cap of the code is approached from both sides
 	boundary := []vC12Topo{
 		vC12Dname(9, false), vC12Dname(10, false), vC12Dname(11, false), vC12Dname(13, false), vC12Dname(2, true),
